@@ -14,4 +14,4 @@ def run(ctx):
     except ImportError:
         pass
     netprop.run_property(ctx, "C05", ["refuse", "capacity", "refuse", "mixed"], 1500 if t else 150, 30 if t else 24,
-                         scenarios=scen.refusals() + scen.capacity() + scen.register_limit(), own_props=["C05"], extra=extra)
+                         scenarios=scen.refusals() + scen.capacity() + scen.register_limit() + scen.big_merge(), own_props=["C05"], extra=extra)
